@@ -6,6 +6,7 @@ import (
 	"os"
 	"path/filepath"
 	"sort"
+	"strings"
 	"time"
 
 	"verif/sim/internal/common"
@@ -98,6 +99,7 @@ func Check(prop, tier string) int {
 	b := common.Prepare(prop, false)
 	e := NewEngine(b, prop)
 	n, budget := cases(prop, tier)
+	n = common.CasesOverride(n)
 	deadline := common.NewDeadline(budget)
 	scratch := filepath.Join(b.Root, "cases")
 	os.MkdirAll(scratch, 0777)
@@ -147,6 +149,61 @@ func Check(prop, tier string) int {
 	if ran == 0 {
 		common.Infra("no case ran")
 	}
+	// C19: model-based check of `wire show` on generated modules, under several iteration schedules
+	if prop == "C19" {
+		ns := 40
+		if tier == "thorough" {
+			ns = 700
+		}
+		ns = common.CasesOverride(ns)
+		type sres struct {
+			c   *ShowCase
+			out *Outcome
+		}
+		sresults := common.ParallelMap(ns, common.Workers(), func(i int) sres {
+			if deadline.Passed() {
+				return sres{}
+			}
+			c := GenShowCase(common.Rng(seed^0x5105, i), tier == "thorough")
+			dir := filepath.Join(scratch, fmt.Sprintf("s%d", i))
+			os.MkdirAll(dir, 0777)
+			defer os.RemoveAll(dir)
+			return sres{c, e.RunShowCase(c, dir)}
+		})
+		for i, r := range sresults {
+			if r.c == nil {
+				continue
+			}
+			if r.out.Infra != "" {
+				writeEvidence(e, prop, tier, seed, start, ran, steps, samples, 0, "infrastructure trouble: "+r.out.Infra)
+				common.Infra("show case %d: %s", i, r.out.Infra)
+			}
+			ran++
+			steps += r.out.Steps
+			if i == 0 {
+				samples = append(samples, map[string]interface{}{"show_model_case": i, "sets": len(r.c.Module.Sets), "types": len(r.c.Module.Types), "schedules": r.c.Iters, "log": r.out.Log})
+			}
+			for _, v := range r.out.Verdicts {
+				// keep only the failing schedule in the replay
+				rc := &ShowCase{Module: r.c.Module, Iters: r.c.Iters}
+				if j := strings.Index(v.Detail, "iteration "); j >= 0 {
+					rc.Iters = []string{v.Detail[j+len("iteration "):]}
+				}
+				found = append(found, common.Found{Verdict: v, Index: 100000 + i, Case: rc, Trace: r.out.Log})
+			}
+		}
+	}
+	if os.Getenv("VERIF_LOG") != "" {
+		var lines []string
+		for i, r := range results {
+			if r.c == nil {
+				continue
+			}
+			lines = append(lines, fmt.Sprintf("== case %d layout=%s", i, r.c.Layout))
+			lines = append(lines, r.out.Log...)
+		}
+		common.WriteRunLog(lines)
+	}
 	// one representative per key, minimised (unlisted ones only)
 	findings := common.LoadFindings()
 	sort.SliceStable(found, func(i, j int) bool { return found[i].Index < found[j].Index })
@@ -158,6 +215,19 @@ func Check(prop, tier string) int {
 			continue
 		}
 		seen[k] = true
+		if sc, ok := f.Case.(*ShowCase); ok {
+			if common.KnownOpen(findings, prop, k) == nil {
+				dir, _ := os.MkdirTemp(scratch, "showrep-")
+				o := e.RunShowCase(sc, dir)
+				os.RemoveAll(dir)
+				if hasKey(o.Verdicts, prop, k) == nil {
+					writeEvidence(e, prop, tier, seed, start, ran, steps, samples, 0, "a violation did not reproduce")
+					common.Infra("show-model violation %s did not reproduce when re-run: harness nondeterminism", k)
+				}
+			}
+			reps = append(reps, f)
+			continue
+		}
 		if common.KnownOpen(findings, prop, k) == nil && len(reps) < 6 {
 			mc, mv, mlog := e.minimise(f.Case.(*Case), prop, k, scratch)
 			if mc == nil {
@@ -236,7 +306,16 @@ func Replay(r *common.Replay) int {
 	e := NewEngine(b, "all")
 	dir := filepath.Join(b.Root, "replay")
 	os.MkdirAll(dir, 0777)
-	out := e.RunCase(&c, dir)
+	var out *Outcome
+	if len(c.Pkgs) == 0 {
+		var sc ShowCase
+		if err := json.Unmarshal(r.Case, &sc); err != nil || sc.Module == nil {
+			common.Infra("replay: not a history and not a show-model case")
+		}
+		out = e.RunShowCase(&sc, dir)
+	} else {
+		out = e.RunCase(&c, dir)
+	}
 	if out.Infra != "" {
 		common.Infra("%s", out.Infra)
 	}
